@@ -447,7 +447,15 @@ def rule_startup_declares_edges(A, R, rule):
         for w in run.by_kind("write_edge"):
             roles = run.syms.get(w["b"], (frozenset(), None))[0]
             if is_role((w["b"], roles), "topo") and isinstance(w["b"], tuple) and w["b"][0] == "b":
-                ws.append(w)
+                # the binding that enumerates the topological order itself (the key may have passed through a local collection on
+                # its way to the write: it remembers which binding it was)
+                bsym = w["b"]
+                if "topo" not in roles:
+                    for r_ in roles:
+                        if isinstance(r_, tuple) and r_[0] == "was" and isinstance(r_[1], tuple) and r_[1][0] == "b" \
+                                and "topo" in run.syms.get(r_[1], (frozenset(), None))[0]:
+                            bsym = r_[1]
+                ws.append(dict(w, b=bsym))
         if not ws:
             continue
         loops = set((w["b"][1], w["b"][2]) for w in ws)
